@@ -8,7 +8,7 @@
    theorems of Props/C10.v alike.  (the source writes the roots into a Vector of zeros of length 2 / 3 and reads roots[0]
    back; the model names the values) *)
 From Coq Require Import List Arith ZArith Lia Bool.
-From OV Require Import Base.Panic Base.Arith Model.Complex gen.Params Model.Roots gen.SrcPrelude gen.SrcRoots Proofs.SrcEqBase.
+From OV Require Import Base.Panic Base.Arith Model.Vector Model.Complex gen.Params Model.Roots gen.SrcPrelude gen.SrcRoots Proofs.SrcEqBase.
 Import ListNotations.
 
 Section SrcEqRoots.
@@ -88,11 +88,89 @@ Proof.
   repeat lg_step.
 Qed.
 
+(* ------------------------------------------------------------------ poly_solve
+   The model also returns the trace of every laguer call.  ERASURE:  s_poly_solve = the model's roots. *)
+Lemma for_rev_from_sim {S1 S2} (Rl : S1 -> S2 -> Prop) n lo (b1 : nat -> S1 -> res S1) (b2 : nat -> S2 -> res S2) a1 a2 :
+  Rl a1 a2 ->
+  (forall i p1 p2, lo <= i < lo + n -> Rl p1 p2 -> res_rel Rl (b1 i p1) (b2 i p2)) ->
+  res_rel Rl (for_rev_from n lo b1 a1) (for_rev_from n lo b2 a2).
+Proof.
+  revert a1 a2; induction n as [|n IH]; intros a1 a2 H0 H; cbn [for_rev_from]; [exact H0|].
+  apply (res_rel_bind2 Rl Rl); [apply H; [lia|exact H0]|].
+  intros p q Hpq. apply IH; [exact Hpq|]. intros; apply H; [lia|assumption].
+Qed.
+Lemma for_rev_sim {S1 S2} (Rl : S1 -> S2 -> Prop) lo hi (b1 : nat -> S1 -> res S1) (b2 : nat -> S2 -> res S2) a1 a2 :
+  Rl a1 a2 ->
+  (forall i p1 p2, lo <= i < hi -> Rl p1 p2 -> res_rel Rl (b1 i p1) (b2 i p2)) ->
+  res_rel Rl (for_rev lo hi b1 a1) (for_rev lo hi b2 a2).
+Proof. intros H0 H. apply for_rev_from_sim; [exact H0|]. intros; apply H; [lia|assumption]. Qed.
+
+(* `ad_v = zeros(n); for jj in 0..n { ad_v[jj] = ad[jj]; }` is the model's take_checked *)
+Lemma mapM_rd_seq_panic {Y} (v : list Y) n lo : lo <= length v < lo + n -> mapM (rd v) (seq lo n) = Panic Index.
+Proof.
+  revert lo; induction n as [|n IH]; intros lo H; [lia|]. cbn [seq mapM].
+  destruct (Nat.eq_dec lo (length v)) as [->|Hne].
+  - rewrite rd_panic by lia. reflexivity.
+  - rewrite (IH (S lo)) by lia. destruct (rd v lo) eqn:E; [reflexivity|].
+    unfold rd in E. destruct (nth_error v lo) eqn:En; [discriminate|]. apply nth_error_None in En. lia.
+Qed.
+Lemma copy_loop (ad : list K) (n : nat) :
+  for_ 0 n (fun jj v => let* y := rd ad jj in upd v jj y) (repeat (@zero (KK RA)) n) = take_checked RA ad n.
+Proof.
+  unfold for_, take_checked. rewrite Nat.sub_0_r.
+  pose proof (for_from_tab (rd ad) (repeat (@zero (KK RA)) n) []) as E. rewrite repeat_length in E. cbn [length app] in E.
+  rewrite E. clear E. destruct (Nat.leb_spec n (length ad)) as [Hle|Hgt].
+  - rewrite mapM_rd_seq by lia. reflexivity.
+  - rewrite mapM_rd_seq_panic by lia. reflexivity.
+Qed.
+
+Lemma res_rel_refl_eq {Y} (e : res Y) : res_rel eq e e.
+Proof. destruct e; reflexivity. Qed.
+
+Ltac rr_bind :=
+  match goal with
+  | |- res_rel _ (bind ?e _) (bind ?e' _) => unify e e'; change e' with e; destruct e; cbn [bind res_rel]; [|reflexivity]
+  end.
+
+Lemma src_poly_solve (coeffs : list K) (refine : bool) :
+  s_poly_solve RA coeffs refine = let* r := poly_solve RA coeffs refine in Ok (fst r).
+Proof.
+  unfold s_poly_solve, poly_solve. rewrite bind_assoc. apply bind_ext; intros degree. cbv zeta.
+  destruct (degree =? 0); [reflexivity|].
+  rewrite !bind_assoc. apply bind_ext; intros roots1.
+  rewrite !bind_assoc. apply bind_ext; intros roots2.
+  rewrite !bind_assoc. apply bind_ext; intros roots3.
+  rewrite !bind_assoc.
+  (* the deflation loop: source state (roots, its, ad), model state (ad, roots, trace) *)
+  apply (res_rel_bind (fun (p : list K * nat) (q : list K * list (lres K)) => fst p = fst q)).
+  - destruct (3 <? degree); [|reflexivity].
+    apply (res_rel_bind2 (fun (p : list K * nat * list K) (q : list K * list K * list (lres K)) =>
+                            fst (fst p) = snd (fst q) /\ snd p = fst (fst q))).
+    + apply for_rev_sim; [split; reflexivity|].
+      intros j [[rs its] ad] [[ad' rs'] tr] Hj [E1 E2]. cbn [fst snd] in E1, E2. subst rs' ad'.
+      unfold solve_body. rewrite copy_loop.
+      rr_bind. rewrite !bind_assoc. rr_bind. cbn [bind]. rewrite if_ok. cbn [bind]. unfold snap.
+      rr_bind. unfold deflate. rewrite !bind_assoc. rr_bind.
+      match goal with |- res_rel _ (bind ?e _) (bind ?e' _) => unify e e'; change e' with e; destruct e as [[ad2 b2]|]; cbn [bind res_rel fst snd]; [|reflexivity] end.
+      split; reflexivity.
+    + intros [[rs its] ad] [[ad' rs'] tr] [E1 E2]. cbn [fst snd] in *. subst. reflexivity.
+  - intros [rs its] [rs' tr] E. cbn [fst] in E. subst rs'.
+    destruct refine; [|reflexivity].
+    (* the polishing loop: source state (roots, its, a) with a = coeffs throughout, model state (roots, trace) *)
+    match goal with |- bind ?L _ = _ => transitivity (bind L (fun r => Ok (fst (fst r)))); [apply bind_ext; intros [[? ?] ?]; reflexivity|] end.
+    apply (res_rel_bind (fun (p : list K * nat * list K) (q : list K * list (lres K)) => fst (fst p) = fst q /\ snd p = coeffs)).
+    + apply for_sim; [split; reflexivity|].
+      intros j [[rs2 its2] a2] [rs2' tr2] Hj [E1 E2]. cbn [fst snd] in E1, E2. subst rs2' a2.
+      unfold polish_body. rr_bind. rewrite !bind_assoc. rr_bind. cbn [bind]. rr_bind. split; reflexivity.
+    + intros [[rs2 its2] a2] [rs2' tr2] [E1 E2]. cbn [fst snd] in *. subst. reflexivity.
+Qed.
+
 Definition model_is_source_Roots : Prop :=
   (forall a b c : K, s_quadratic_solve RA a b c = quadratic_solve RA a b c) /\
   (forall a b c d : K, s_cubic_solve RA a b c d = cubic_solve RA a b c d) /\
-  (forall (a : list K) (x : K) (its : nat), s_laguer RA a x its = let* l := laguer RA a x in Ok (a, lx l, liters l)).
+  (forall (a : list K) (x : K) (its : nat), s_laguer RA a x its = let* l := laguer RA a x in Ok (a, lx l, liters l)) /\
+  (forall (coeffs : list K) (refine : bool), s_poly_solve RA coeffs refine = let* r := poly_solve RA coeffs refine in Ok (fst r)).
 Lemma model_is_source_Roots_lemma : model_is_source_Roots.
-Proof. exact (Coq.Init.Logic.conj src_quadratic_solve (Coq.Init.Logic.conj src_cubic_solve src_laguer)). Qed.
+Proof. exact (Coq.Init.Logic.conj src_quadratic_solve (Coq.Init.Logic.conj src_cubic_solve (Coq.Init.Logic.conj src_laguer src_poly_solve))). Qed.
 
 End SrcEqRoots.
